@@ -91,6 +91,11 @@ def gen_cases(tier, seed):
             i += 1
             yield {'family': fmt, 'sizes': [6, 2], 'format': fmt, 'pretty': True, 'idx': i, 'seed': seed, 'tier': tier,
                    'filehash': fh, 'no_bytes': True}
+    # counters recorded under dotted names ('stats.bytes'): every resource carries its own numbers
+    for fmt in ('csv', 'json'):
+        i += 1
+        yield {'family': fmt, 'sizes': [2, 9, 5], 'format': fmt, 'pretty': True, 'idx': i, 'seed': seed, 'tier': tier,
+               'dotted_counters': True}
     # add_filehash_to_path (with and without the resource-hash counter): the listed path must be the written one
     for fmt in ('csv', 'json'):
         for nohash in (False, True):
@@ -111,7 +116,8 @@ def run_case(case):
            'later_step_stops_reading_early': bool(case.get('early_stop')),
            'source_fails_and_later_step_swallows': bool(case.get('swallowed_failure')),
            'resource_paths': case.get('paths'), 'force_format': not case.get('no_force_format'),
-           'two_dumps_in_one_flow_a_resource_deleted_between': bool(case.get('raw_dump_before_delete'))}
+           'two_dumps_in_one_flow_a_resource_deleted_between': bool(case.get('raw_dump_before_delete')),
+           'counters_under_dotted_names': bool(case.get('dotted_counters'))}
     F = [{'name': 'id', 'type': 'integer'}, {'name': 't', 'type': 'string'}, {'name': 'n', 'type': 'number'}]
     tables = [[{'id': r * 1000 + i, 't': 'żółć-%d "q", x' % i, 'n': 1.5 * i} for i in range(n)]
               for r, n in enumerate(case['sizes'])]
@@ -156,6 +162,8 @@ def run_case(case):
             kw['counters'] = {'resource-hash': None}
         if case.get('no_bytes'):
             kw['counters'] = {'datapackage-bytes': None, 'resource-bytes': None}
+        if case.get('dotted_counters'):
+            kw['counters'] = {'resource-bytes': 'stats.bytes', 'resource-hash': 'stats.hash', 'resource-rowcount': 'stats.rows'}
         if case.get('no_force_format'):
             kw['force_format'] = False
         if case.get('raw_dump_before_delete'):
@@ -221,6 +229,8 @@ def run_case(case):
             if not os.path.isfile(fp):
                 return 'parseable descriptor lists %r which does not exist' % rd.get('path')
             data = open(fp, 'rb').read()
+            if case.get('dotted_counters'):
+                rd = dict(rd, bytes=(rd.get('stats') or {}).get('bytes'), hash=(rd.get('stats') or {}).get('hash'))
             if (not case.get('no_bytes') and rd.get('bytes') != len(data)) or \
                     (rd.get('hash') is not None and rd.get('hash') != iolab.md5(data)):
                 return 'parseable descriptor lists %r with bytes=%r but the file has %d bytes' % (
@@ -319,6 +329,8 @@ def run_case(case):
                     % (what, p, w.listing()), 'listed_file_missing')
                 continue
             data = w.read(p)
+            if case.get('dotted_counters'):
+                rd = dict(rd, bytes=(rd.get('stats') or {}).get('bytes'), hash=(rd.get('stats') or {}).get('hash'))
             if not case.get('no_bytes') and rd.get('bytes') != len(data):
                 add('listed_file_size', '%s: %r recorded bytes=%r, file has %d' % (what, p, rd.get('bytes'), len(data)),
                     'listed_file_size')
